@@ -17,18 +17,23 @@ for spec in sys.argv[4:]:
         if not m:
             sys.exit('theorem %s not found in %s' % (n, path))
         start = m.end()
-        pos = start
+        depth = 0
+        k = start
         sig = None
-        while True:
-            k = src.find(':=', pos)
-            if k < 0:
-                sys.exit('no := for %s' % n)
-            line_start = src.rfind('\n', 0, k) + 1
-            if re.search(r'\blet\b[^\n]*$', src[line_start:k]) or re.search(r'\bhave\b[^\n]*$', src[line_start:k]):
-                pos = k + 2
-                continue
-            sig = src[start:k].rstrip()
-            break
+        while k < len(src):
+            ch = src[k]
+            if ch in '({[⟨':
+                depth += 1
+            elif ch in ')}]⟩':
+                depth -= 1
+            elif ch == ':' and src[k:k+2] == ':=' and depth == 0:
+                line_start = src.rfind('\n', 0, k) + 1
+                if not re.search(r'\b(let|have)\b[^\n]*$', src[line_start:k]):
+                    sig = src[start:k].rstrip()
+                    break
+            k += 1
+        if sig is None:
+            sys.exit('no := for %s' % n)
         items.append((n, sig, src_ns))
 text = body + '\n' + ''.join('import %s\n' % i for i in dict.fromkeys(imports))
 text += 'namespace %s\nopen Otr\n' % ns
